@@ -483,6 +483,6 @@ pub(crate) mod verif_kani {
     inst_nounwind!(pool_shrink_contract_2slabs, 6, shrink_contract(2));
     inst_nounwind!(pool_shrink_contract_3slabs, 6, shrink_contract(3));
     inst!(pool_iter_contract_1slab, 5, iter_contract(1, None));
-    inst!(pool_iter_contract_2slabs_forward, 7, iter_contract(2, Some(false)));
-    inst!(pool_iter_contract_2slabs_backward, 7, iter_contract(2, Some(true)));
+    // 2-slab instances (forward-only / backward-only) did not finish in 600 s and the mixed one exhausted memory:
+    // slab-crossing of the pool iterator is not decided here.
 }
